@@ -7,5 +7,8 @@ CONSTANTS
   ClChk = TRUE
   Threaded = FALSE
   FinalValid = FALSE
+  QCap = 0
+  Gating = FALSE
+  QfRet = TRUE
 INVARIANT InvNeverStuck
 CHECK_DEADLOCK FALSE
